@@ -124,15 +124,78 @@ def r3(ctx):
         ctx.check(P, rule, "update_contiguous_length distinguishes drop from set", bool(sw), "branch on bitfield_update.drop", "no branch on the drop flag")
 
 
+def r3b(ctx):
+    """sibling agreement: the live path (clear) and the replay path (update_contiguous_length,
+    drop branch) lower the hint under the same condition — whenever it exceeds the start of the
+    dropped range; an additional bound on the replay side makes a replayed clear keep a stale hint"""
+    rule = "C08.R3"
+    from .c09 import dominating_conditions
+    fu = ctx.fn(UCL)
+    if not need(ctx, P, rule, UCL, fu):
+        return
+    HINT = "header.hints.contiguous_length"
+    lower = []
+    # the local that is finally stored into the hint
+    stored = set()
+    for bb_, si_ in assign_sites(fu, HINT):
+        rv = fu.blocks[bb_].stmts[si_]["rv"]
+        if rv["k"] == "use":
+            p_ = rv["op"].get("c") or rv["op"].get("m")
+            while p_ is not None and not p_["p"]:
+                stored.add(p_["l"])
+                ds = [d for d in fu.body.defs.get(p_["l"], []) if not d[3]["p"] and d[0] == "assign" and d[4]["k"] == "use"]
+                nxt = None
+                if len(ds) == 1 and not fu.body.local_name(p_["l"]):
+                    nxt = ds[0][4]["op"].get("c") or ds[0][4]["op"].get("m")
+                p_ = nxt
+    for b in fu.live():
+        for si, st in enumerate(b.stmts):
+            if st["k"] == "assign" and not st["place"]["p"] and st["place"]["l"] in stored:
+                v = fu.origin_rvalue(st["rv"], b.i, si)
+                if path_of(strip(v)) == "bitfield_update.start":
+                    lower.append((b.i, si))
+    if not need(ctx, P, rule, "update_contiguous_length: hint lowered to bitfield_update.start", lower):
+        return
+    bb, si = lower[0]
+    conds = dominating_conditions(fu, bb)
+    need_cmp, extra = False, []
+    for o, truth, sb in conds:
+        s = term_sig(o)
+        if "drop" in s:
+            continue
+        if o[0] == "bin" and o[1] in ("Gt", "Lt", "Ge", "Le"):
+            sides = (term_sig(strip(o[2])), term_sig(strip(o[3])))
+            if HINT in sides and "bitfield_update.start" in sides:
+                op = o[1] if truth else {"Gt": "Le", "Lt": "Ge", "Ge": "Lt", "Le": "Gt"}[o[1]]
+                if sides[0] != HINT:
+                    op = {"Gt": "Lt", "Lt": "Gt", "Ge": "Le", "Le": "Ge"}[op]
+                need_cmp = need_cmp or op == "Gt"
+                continue
+        extra.append("%s is %s" % (s[:90], truth))
+    ctx.check(P, rule, "a replayed drop lowers the hint whenever it exceeds the start of the dropped range", need_cmp and not extra,
+              "update_contiguous_length (drop): c > start => c = start, exactly the condition used by clear()",
+              "update_contiguous_length lowers the hint to `start` only under the additional condition(s) [%s]: clear() lowers it whenever start < contiguous_length, so a clear in the middle of the contiguous range that is replayed from the oplog on reopen leaves a stale contiguous length" % "; ".join(extra),
+              [loc(fu, bb, si)], key="C08|C08.R3|update_contiguous_length|drop lowering condition")
+    fc = ctx.real_body(CLEAR, [OPLOG_CLEAR])
+    if need(ctx, P, rule, CLEAR, fc):
+        ws = assign_sites(fc, "self.header.hints.contiguous_length")
+        good = False
+        if ws:
+            cs = [(term_sig(o), tr) for o, tr, _ in dominating_conditions(fc, ws[0][0])]
+            cmp_ = [c for c in cs if "contiguous_length" in c[0]]
+            good = len(cmp_) == 1 and cmp_[0][0] in ("Lt(start, self.header.hints.contiguous_length)", "Gt(self.header.hints.contiguous_length, start)") and cmp_[0][1] is True
+        ctx.check(P, rule, "clear lowers the hint exactly when start < contiguous_length", good, "single guard start < contiguous_length", "clear's lowering guard differs: %s" % (cs if ws else None))
+
+
 def r4(ctx):
     from . import c01
     c01.read_gate(ctx, P, "C08.R4")
 
 
-RULES = [r1, r2, r3, r4]
+RULES = [r1, r2, r3, r3b, r4]
 EXPLANATION = ("C08 (has / contiguous_length exact for large, sparse, reopened cores): decides that every page/bit computation uses one named unit constant consistently (mask C-1 and divisor C, "
                "32768 bits = 4096 bytes = 1024 x 32-bit words) and that a missing page reads false (R1); that the page reader uses the writer's byte stride and page-relative little-endian words (R2); "
                "that every Bitfield::update in core.rs is followed on all paths by update_contiguous_length on the same update and bitfield, clear lowers the hint to `start`, info reports the "
-               "maintained hint (R3); that has()/get() are gated by Bitfield::get(index) (R4).")
+               "maintained hint, and the replay path lowers the hint under the same condition as the live clear path (R3); that has()/get() are gated by Bitfield::get(index) (R4).")
 NOT_DECIDED = "the arithmetic inside update_contiguous_length and the bit masks of set_range (value level); behaviour after crash recovery (C02)."
 ASSUMPTIONS = ["intmap::IntMap behaves as a map"]
